@@ -30,6 +30,20 @@ CHECKS["C02"] = dict(
          "implementation, not by a theorem. Open finding: array formats use machine byte order (documented big-endian).",
     technique="Coq proof (mutual induction over formats) + translated registry tables + differential correspondence", design="5/C02")
 
+CHECKS["C03"] = dict(
+    text="Coq theorems: for every format / message definition and every byte string an accepted decode ends inside the buffer "
+         "(unpack_bounds, by mutual induction over formats), consume_all acceptance means exact consumption, length-prefixed "
+         "parts have exactly their declared length; for every listener table, every datagram and arbitrary handler / cell-crypto "
+         "behaviour, notify_listeners returns normally (notify_total), every selected listener is delivered to "
+         "(notify_reaches_all), short or foreign-prefix datagrams enter no handler (short_is_ignored, prefix_gate). "
+         "The decoder model is tied to the real Serializer on malformed inputs of every shipped class; the receive-path model is "
+         "tied to real overlays of every class multiplexed on one endpoint, fed through Endpoint.notify_listeners; the property "
+         "is evaluated on the implementation (escaping exceptions, skipped listeners, foreign entries, over-reads).",
+    note="Trusted: Coq kernel; hand models M02_wire / M03_recv (correspondence-checked per run); handler bodies and cell "
+         "cryptography are oracles; relay tables paired (C05 invariant); exceptions inside asynchronous handler tasks are "
+         "swallowed by TaskManager and not observed; routing tables are empty in the correspondence part.",
+    technique="Coq proof (induction over formats; case analysis of the receive path) + differential correspondence", design="5/C03")
+
 NOT_APPLICABLE = {}
 
 
